@@ -1,5 +1,5 @@
 use crate::prelude::*;
-use std::sync::Arc;
+use std::sync::{Arc, RwLock};
 
 #[derive(Clone)]
 pub struct AsyncSubject<'a, Item>
@@ -7,6 +7,9 @@ where
   Item: Clone + Send + Sync,
 {
   subject: Arc<subject::Subject<'a, Item>>,
+  // the subject itself remembers the latest item: it is handed out on
+  // completion to whoever is subscribed then, whenever they subscribed
+  last: Arc<RwLock<Option<Item>>>,
 }
 
 impl<'a, Item> AsyncSubject<'a, Item>
@@ -16,20 +19,25 @@ where
   pub fn new() -> AsyncSubject<'a, Item> {
     AsyncSubject {
       subject: Arc::new(subjects::Subject::new()),
+      last: Arc::new(RwLock::new(None)),
     }
   }
 
   pub fn next(&self, item: Item) {
-    self.subject.next(item);
+    *self.last.write().unwrap() = Some(item);
   }
   pub fn error(&self, err: RxError) {
     self.subject.error(err);
   }
   pub fn complete(&self) {
+    let last = self.last.write().unwrap().take();
+    if let Some(item) = last {
+      self.subject.next(item);
+    }
     self.subject.complete();
   }
   pub fn observable(&self) -> Observable<'a, Item> {
-    self.subject.observable().take_last(1).clone()
+    self.subject.observable()
   }
 }
 
